@@ -22,6 +22,8 @@ def sh(cmd, **kw):
 def env_for(wt, extra=None):
     e = dict(os.environ, PYTHONPATH=wt, XDG_DATA_HOME=wt + "/.xdg/data", XDG_CONFIG_HOME=wt + "/.xdg/config", XDG_CACHE_HOME=wt + "/.xdg/cache", HOME=wt + "/.xdg/home")
     os.makedirs(wt + "/.xdg/home", exist_ok=True)
+    os.makedirs(wt + "/.tmp", exist_ok=True)
+    e["TMPDIR"] = wt + "/.tmp"  # the demos' temporary directories go away with the worktree
     if extra:
         e.update(extra)
     return e
